@@ -205,6 +205,18 @@ func (n *NestedSpec) build() (msg any, fresh func() any) {
 		return m, func() any { return &descriptorpb.DescriptorProto{} }
 	case "gv2-nil":
 		return (*timestamppb.Timestamp)(nil), func() any { return &timestamppb.Timestamp{} }
+	case "gv2-required": // a proto2 message with two required fields, only known to the Google V2 runtime
+		m := &descriptorpb.UninterpretedOption_NamePart{}
+		if !n.Empty {
+			m.NamePart, m.IsExtension = proto.String(n.S), proto.Bool(n.J&1 == 1)
+		}
+		return m, func() any { return &descriptorpb.UninterpretedOption_NamePart{} }
+	case "gogo-required":
+		m := &gogodesc.UninterpretedOption_NamePart{}
+		if !n.Empty {
+			m.NamePart, m.IsExtension = gogo.String(n.S), gogo.Bool(n.J&1 == 1)
+		}
+		return m, func() any { return &gogodesc.UninterpretedOption_NamePart{} }
 	}
 	panic("unknown flavour " + n.Flavour)
 }
@@ -217,6 +229,14 @@ type NCase struct {
 	Nested NestedSpec `json:"nested"`
 	// decode side: inflate the declared length beyond the buffer
 	Inflate uint64 `json:"inflate,omitempty"`
+	// decode side: the target is not fresh but holds this (other) value of the same flavour
+	Prior *NestedSpec `json:"prior,omitempty"`
+}
+
+// requiredUnset: the nested message is a proto2 message whose required fields are unset - its runtime refuses
+// to marshal it and refuses to unmarshal the (empty) encoding it would have.
+func (n *NestedSpec) requiredUnset() bool {
+	return n.Empty && (n.Flavour == "gv2-required" || n.Flavour == "gogo-required")
 }
 
 func nestedEqual(a, b any) bool {
@@ -252,7 +272,7 @@ func oracleC19(c *NCase) (f *ev.Failure) {
 
 	// expected bytes: M = csproto.Marshal(m) taken from a second, identically built message
 	var M []byte
-	if !c.Nested.FailM {
+	if !c.Nested.FailM && !c.Nested.requiredUnset() {
 		twin, _ := c.Nested.build()
 		var err error
 		M, err = csproto.Marshal(twin)
@@ -272,7 +292,7 @@ func oracleC19(c *NCase) (f *ev.Failure) {
 
 	// ---- encode side, on an exactly-sized buffer inside a sentinel-filled backing array ----
 	total := len(want)
-	if c.Nested.FailM {
+	if c.Nested.FailM || c.Nested.requiredUnset() {
 		total += 64 // size is whatever the stub reports; leave room, only error propagation is checked
 	}
 	var bufs [2][]byte
@@ -288,6 +308,12 @@ func oracleC19(c *NCase) (f *ev.Failure) {
 			e.EncodeUInt64(100+i, v)
 		}
 		err := e.EncodeNested(c.Num, m)
+		if c.Nested.requiredUnset() {
+			if err == nil {
+				return ev.Failf("C19/marshal-error-dropped/"+fl, "EncodeNested returned no error for a nested message whose required fields are unset (its runtime refuses to marshal it)")
+			}
+			break // decode side below: the empty payload such a message would have
+		}
 		if c.Nested.FailM {
 			if !errors.Is(err, errNestedMarshal) {
 				return ev.Failf("C19/marshal-error-dropped/"+fl, "EncodeNested returned %v, the nested marshaler failed with %v", err, errNestedMarshal)
@@ -302,6 +328,9 @@ func oracleC19(c *NCase) (f *ev.Failure) {
 			e.EncodeUInt64(200+i, v)
 		}
 		bufs[run] = buf
+	}
+	if c.Nested.requiredUnset() {
+		bufs[0], bufs[1] = want, want
 	}
 	if !bytes.Equal(bufs[0], bufs[1]) {
 		return ev.Failf("C19/slack/"+fl, "buffer not completely written: %x vs %x", bufs[0], bufs[1])
@@ -337,6 +366,9 @@ func oracleC19(c *NCase) (f *ev.Failure) {
 	}
 	at := d.Offset()
 	dst := fresh()
+	if c.Prior != nil && c.Prior.Flavour == fl && !c.Nested.FailU {
+		dst, _ = c.Prior.build() // a target that has been used before
+	}
 	err = d.DecodeNested(dst)
 	calls := func() int {
 		switch s := dst.(type) {
@@ -356,6 +388,12 @@ func oracleC19(c *NCase) (f *ev.Failure) {
 		}
 		return nil
 	}
+	if c.Nested.requiredUnset() {
+		if err == nil {
+			return ev.Failf("C19/unmarshal-error-dropped/"+fl, "DecodeNested returned no error for an empty payload although the nested message's runtime refuses it (required fields missing)")
+		}
+		return nil
+	}
 	if c.Nested.FailU {
 		if !errors.Is(err, errNestedUnmarshal) {
 			return ev.Failf("C19/unmarshal-error-dropped/"+fl, "DecodeNested returned %v, the nested decoder failed with %v", err, errNestedUnmarshal)
@@ -370,7 +408,11 @@ func oracleC19(c *NCase) (f *ev.Failure) {
 	}
 	orig, _ := c.Nested.build()
 	if !nestedEqual(orig, dst) {
-		return ev.Failf("C19/message-differs/"+fl, "decoded nested message differs from the original: %v vs %v", dst, orig)
+		kind := "message-differs"
+		if c.Prior != nil {
+			kind = "message-differs-in-reused-target"
+		}
+		return ev.Failf("C19/"+kind+"/"+fl, "decoded nested message differs from the original: %v vs %v", dst, orig)
 	}
 	for i, v := range c.After {
 		num, wt, err := d.DecodeTag()
@@ -387,14 +429,27 @@ func oracleC19(c *NCase) (f *ev.Failure) {
 	return nil
 }
 
-var c19Flavours = []string{"marshalto", "marshalonly", "gogo", "legacy", "gv2-timestamp", "gv2-duration", "gv2-struct", "gv2-string", "gv2-bytes", "gv2-descriptor", "gv2-nil"}
+var c19Flavours = []string{"marshalto", "marshalonly", "gogo", "legacy", "gv2-timestamp", "gv2-duration", "gv2-struct", "gv2-string", "gv2-bytes", "gv2-descriptor", "gv2-nil", "gv2-required", "gogo-required"}
 
 func genNCase(t *rapid.T) *NCase {
 	c := &NCase{Num: wiregen.FieldNumber().Draw(t, "num")}
 	c.Before = rapid.SliceOfN(wiregen.U64(), 0, 3).Draw(t, "before")
 	c.After = rapid.SliceOfN(wiregen.U64(), 0, 3).Draw(t, "after")
+	genNested(t, &c.Nested, rapid.SampledFrom(c19Flavours).Draw(t, "flavour"), true)
 	n := &c.Nested
-	n.Flavour = rapid.SampledFrom(c19Flavours).Draw(t, "flavour")
+	if !n.FailM && !n.FailU && rapid.IntRange(0, 5).Draw(t, "inflate") == 0 {
+		c.Inflate = rapid.SampledFrom([]uint64{1, 2, 127, 1 << 20, 1<<31 - 100, 1 << 31, 1 << 40, 1<<64 - 1 - (1 << 30)}).Draw(t, "infl")
+	}
+	if n.Flavour != "gv2-nil" && rapid.IntRange(0, 2).Draw(t, "reuse") == 0 {
+		c.Prior = &NestedSpec{}
+		genNested(t, c.Prior, n.Flavour, false)
+		c.Prior.Empty = false
+	}
+	return c
+}
+
+func genNested(t *rapid.T, n *NestedSpec, flavour string, mayFail bool) {
+	n.Flavour = flavour
 	n.Empty = rapid.IntRange(0, 5).Draw(t, "empty") == 0
 	n.I = int64(wiregen.U64().Draw(t, "i"))
 	n.J = int32(uint32(wiregen.U64().Draw(t, "j")))
@@ -410,22 +465,20 @@ func genNCase(t *rapid.T) *NCase {
 				n.Payload = []byte{0x08, 0x01}
 			}
 		}
-		switch rapid.IntRange(0, 9).Draw(t, "fail") {
-		case 0:
-			n.FailM = true
-		case 1:
-			n.FailU = true
+		if mayFail {
+			switch rapid.IntRange(0, 9).Draw(t, "fail") {
+			case 0:
+				n.FailM = true
+			case 1:
+				n.FailU = true
+			}
 		}
 	default:
 		n.Payload = wiregen.Bytes(false).Draw(t, "b")
 	}
-	if !n.FailM && !n.FailU && rapid.IntRange(0, 5).Draw(t, "inflate") == 0 {
-		c.Inflate = rapid.SampledFrom([]uint64{1, 2, 127, 1 << 20, 1<<31 - 100, 1 << 31, 1 << 40, 1<<64 - 1 - (1 << 30)}).Draw(t, "infl")
-	}
-	return c
 }
 
-const ruleC19 = "case = nested message of one of the flavours {MarshalTo stub, Marshal-only stub, plain gogo (descriptor.DescriptorProto), plain pre-APIv2 Google v1 struct with XXX_ methods, plain Google v2 incl. well-known types and typed nil} x value (incl. empty) x 0..3 scalar fields before and after x field number up to 2^29-1 x failing nested marshaler/unmarshaler x declared length inflated beyond the buffer; " +
+const ruleC19 = "case = nested message of one of the flavours {MarshalTo stub, Marshal-only stub, plain gogo (descriptor.DescriptorProto), plain pre-APIv2 Google v1 struct with XXX_ methods, plain Google v2 incl. well-known types and typed nil, proto2 message with required fields known only to Google v2 / gogo (unset => its runtime refuses to marshal it and to unmarshal the empty payload)} x value (incl. empty) x decode target {fresh, already holding another value of the flavour} x 0..3 scalar fields before and after x field number up to 2^29-1 x failing nested marshaler/unmarshaler x declared length inflated beyond the buffer; " +
 	"oracle: exactly-sized sentinel-backed buffer == prefix|key|varint(len M)|M|suffix with M=csproto.Marshal(m); DecodeNested advances by exactly prefix+len, message equal, suffix decodes, nested errors propagate (errors.Is), inflated length is rejected with 0 calls of the nested decoder; " +
 	"non-trivial = non-empty nested message in a flavour other than MarshalTo, or a failing stub, or an inflated length; distinct by case content"
 
@@ -445,6 +498,12 @@ func TestC19(t *testing.T) {
 		}
 		if c.Nested.Empty {
 			rec.Class("empty-nested")
+		}
+		if c.Prior != nil {
+			rec.Class("reused-decode-target")
+		}
+		if c.Nested.requiredUnset() {
+			rec.Class("required-fields-unset")
 		}
 		if (c.Nested.Flavour != "marshalto" && !c.Nested.Empty) || c.Nested.FailM || c.Nested.FailU || c.Inflate > 0 {
 			cj, _ := json.Marshal(c)
